@@ -177,7 +177,11 @@ def mkSegs (mss : Nat) (stream : Bool) : Nat → Bytes → List Seg
 /-- replace the last element -/
 def setLast (l : List Seg) (s : Seg) : List Seg := l.dropLast ++ [s]
 
-/-- `Send(buffer)` -/
+/-- `Send(buffer)`.  The tests come in the order of the Go code: the `count > 255` refusal (−2) is
+decided *before* the stream-mode append touches the queue (in the code: inside the append branch,
+on the bytes that would remain, and once more after it — the same test, see below), then the slice
+extension of the last segment (`panic1`), then "nothing left", then `newSegment`.  A refused call
+returns the state it was given. -/
 def send (k : Kcp) (buffer : Bytes) : SendRes :=
   if buffer.length = 0 then ⟨k, -1, false⟩ else
   let mss := k.mss.toNat
@@ -188,6 +192,11 @@ def send (k : Kcp) (buffer : Bytes) : SendRes :=
       | some s => if s.data.length < mss then min buffer.length (mss - s.data.length) else 0
       | none => 0
     else 0
+  let buf := buffer.drop ext
+  -- `(len(buffer)-extend+mss-1)/mss > 255` in the append branch (there `mss ≥ 1`, and the quotient is
+  -- ≤ 1 when `len ≤ mss`) and `count > 255` after it are this one test
+  let count := if buf.length ≤ mss then 1 else (buf.length + mss - 1) / mss
+  if count > 255 then ⟨k, -2, false⟩ else   -- refused before the stream append touches the queue
   let panic1 : Bool :=
     match k.snd_queue.getLast? with
     | some s => decide (ext > 0 ∧ s.data.length + ext > mtuLimit)   -- `seg.data[:oldlen+extend]` beyond cap
@@ -199,11 +208,8 @@ def send (k : Kcp) (buffer : Bytes) : SendRes :=
       | some s => setLast k.snd_queue { s with data := s.data ++ buffer.take ext }
       | none => k.snd_queue
     else k.snd_queue
-  let buf := buffer.drop ext
   let k1 := { k with snd_queue := q1 }
   if k.stream ≠ 0 ∧ buf.length = 0 then ⟨k1, 0, false⟩ else
-  let count := if buf.length ≤ mss then 1 else (buf.length + mss - 1) / mss
-  if count > 255 then ⟨k1, -2, false⟩ else
   let count := if count = 0 then 1 else count
   -- `newSegment(size)`: `Get()[:size]` panics when size > cap (mtuLimit)
   if min buf.length mss > mtuLimit then ⟨k1, 0, true⟩ else
